@@ -68,6 +68,8 @@ class FGen:
             "<func>rhs": {"kind": "ut", "type": VT, "args": ["t", "y"], "coef": [0.5, 1.0, -2.0], "nres": 1},
             "<func>sf": {"kind": "scalar", "args": ["a0", "a1"], "coef": [1.0, 0.5, 2.0], "nres": 1},
             "<func>sf2": {"kind": "scalar", "args": ["a0", "a1"], "coef": [0.5, 2.0, -0.5], "nres": 2},
+            # two user-type results at once: 'lo, hi <- split(t, y)'
+            "<func>split": {"kind": "ut", "type": VT, "args": ["t", "y"], "coef": [0.25, 0.5, -1.0], "nres": 2},
         }
         if struct_type:
             self.funcs["<func>rhsa"] = {"kind": "ut", "type": AT, "args": ["t", "y"], "coef": [0.5, 1.0, -1.5],
@@ -424,6 +426,16 @@ class FGen:
             elif r < 0.55:
                 # user-type assignment
                 tid = rng.choice(sorted(set(sc["uts"].values())))
+                if tid == VT and rng.random() < 0.12:
+                    # a call with several user-type assignees
+                    same = [u for u, t in sc["uts"].items() if t == VT]
+                    names2 = rng.sample(LOCALS_OF[VT], 2) if len(LOCALS_OF[VT]) >= 2 else None
+                    if names2 and same and not any(n in sc["nums"] or n in sc["bools"] or n in sc["arrs"]
+                                                   for n in names2):
+                        ops.append(["call", names2, "<func>split", [["var", "<t>"], ["var", rng.choice(same)]], {}, 0])
+                        for n in names2:
+                            sc["uts"][n] = VT
+                        continue
                 rhs = self.ut_expr(sc, rng.choice([0, 1, 1, 2]), tid)
                 cands = [u for u, t in persist["uts"].items() if t == tid]
                 locs = LOCALS_OF[tid]
@@ -645,6 +657,16 @@ def registry(script):
     freg = base_function_registry
     for name, spec in script["funcs"].items():
         c = spec["coef"]
+        if spec["kind"] == "ut" and spec.get("nres", 1) > 1:
+            from dagrt.data import UserType
+            n = spec["nres"]
+            freg = register_function(freg, name, ("t", "y"), default_dict={},
+                                     result_names=tuple(f"r{i}" for i in range(n)),
+                                     result_kinds=(UserType(spec["type"]),) * n)
+            lines = [f"                ${{r{i}}} = {fnum(c[0] + i)} + {fnum(c[1])}*${{t}} + {fnum(c[2])}*${{y}}"
+                     for i in range(n)]
+            freg = freg.register_codegen(name, "fortran", f.CallCode("\n" + "\n".join(lines) + "\n                "))
+            continue
         if spec["kind"] == "ut":
             freg = register_ode_rhs(freg, spec["type"], identifier=name, input_names=("y",))
             if spec["type"] == AT:
